@@ -18,4 +18,24 @@ PROPS = {
         "rule": "same history generator as C13; per-provider equalities (UsedStorage, Worker.Storage, Worker.IncomePerSecond, TotalShardPledged vs. the completed shards it holds) and pool totals evaluated at every observed boundary and on closed-block forks after every message. Non-trivial = >=2 providers held a shard at some boundary and a decrement path ran (expiry, migration, terminate). Distinct = hash of executed history.",
         "assumptions": LIFE_ASSUME + ["Pool.TotalPledged is compared with the sum of capacity pledges only"],
     },
+    "C15": {
+        "tests": [
+            {"name": "TestC15Direct", "quick": 4000, "thorough": 80000},
+            {"name": "TestC15InSitu", "quick": 320, "thorough": 6000},
+            {"name": "TestC15RandomIndex", "quick": 40000, "thorough": 400000, "max_shards": 4},
+            {"name": "TestC15RandomIndexBox", "quick": 1, "thorough": 1, "max_shards": 1},
+        ],
+        "rule": "(direct) node populations of 3-12 nodes installed as genesis would (status bitmask, reputation around the floor, role, last-alive height, free capacity size-1/size/large/none, super-node cursor), then 1-12 RandomSP calls with generated count, ignore list, shard size and header AppHash (empty, 1 byte, zeros, 32 random bytes); (in situ) every shard assignment made by Store, timeout handling and Migrate inside lifecycle histories, judged against the node state right before the step; (pure) RandomIndex over structured seeds, and the complete box 0<=count<total<=8 x seeds 0..20000 (quick) / 200000 (thorough). Oracle = validity predicate: chosen providers pairwise distinct, disjoint from ignore list / current and timed-out holders, each online+serve-storage+accept-order with reputation>=8000 and free capacity>=size, no more than requested, and Store/Ready create exactly `replica` shards or fail. Non-trivial = the population had at least requested+1 eligible nodes and >=1 ineligible/ignored one, so a wrong pick was possible (RandomIndex: count>=2). Distinct = hash of executed history / input triple.",
+        "assumptions": LIFE_ASSUME + ["providers kept by a force-push (operation 2) from the version it replaces are not treated as a selection; only the additional ones are",
+                                      "exhaustive:true refers only to the stated RandomIndex box"],
+    },
+    "C02": {
+        "tests": [
+            {"name": "TestC02History", "quick": 160, "thorough": 4000},
+            {"name": "TestC02Select", "quick": 2000, "thorough": 40000},
+            {"name": "TestC02RandomIndex", "quick": 40000, "thorough": 400000, "max_shards": 4},
+        ],
+        "rule": "lifecycle histories with the hostile value grammars (replica -1/0/N+1/2^30, timeout negative or >= duration, sizes 0..2^64-1, durations, commit expressions, operations) and generated header AppHash (empty, 1 byte, zeros, random), drained across every scheduled height; every BeginBlock / message / EndBlock runs under a 20 s per-step deadline and begin/end-block panics are chain halts. Plus direct RandomSP calls over generated populations and cursors and RandomIndex over structured seeds under the same deadline. Non-trivial = the history reached a shard expiry, renewal rotation, timeout re-assignment or give-up, replica reduction or data expiry (selection tests: a super node was present; RandomIndex: count>=2).",
+        "assumptions": LIFE_ASSUME + ["per-step deadline 20 s on small states stands for 'bounded time'; growth of per-block cost with state size is not measured"],
+    },
 }
